@@ -51,3 +51,35 @@ Proof.
   exact A.
 Qed.
 Print Assumptions C05_angvec_recovers_angle.
+
+(* ============================================================ the quaternion route (UnitQuaternion.rpy / eul / angvec)
+   The accessors extract from q.R.  tr_UQ_R is the trace of the real accessor UnitQuaternion.R, tr_q2r of base.q2r.
+   Both double-cover representatives q and -q give the SAME matrix, a rotation for unit q: so every extraction through
+   the quaternion class is independent of the sign of the scalar part, inherits the ranges proved for the matrix route
+   (C05_rpy_ranges / C05_eul_ranges hold for every matrix), and for axis-angle: angle in (0, pi), unit axis, exact rebuild. *)
+Definition qneg (q : V4 R) : V4 R := let '(s,x,y,z) := q in (-s, -x, -y, -z).
+
+Theorem C05_quaternion_route_sign_independent : forall q : V4 R,
+  tr_UQ_R Rops (qneg q) = tr_UQ_R Rops q /\ tr_q2r Rops (qneg q) = tr_q2r Rops q /\ tr_UQ_R Rops q = tr_q2r Rops q /\
+  tr_q2r Rops q = q2r_ref Rops q.
+Proof.
+  intros q. destruct q as [[[s x] y] z]. unfold qneg.
+  repeat split; autounfold with smgen smlin; sm_simpl; tuple_eq ltac:(ring).
+Qed.
+Print Assumptions C05_quaternion_route_sign_independent.
+
+Theorem C05_quaternion_route_angvec : forall q : V4 R, qnormsq Rops q = 1 -> 0 < st2 (tr_UQ_R Rops q) ->
+  let '(th, a0, a1, a2) := m_tr2angvec_general Rops (tr_UQ_R Rops q) in
+  m_tr2angvec_general Rops (tr_UQ_R Rops (qneg q)) = (th, a0, a1, a2) /\
+  tr_angvec2r Rops th (a0, a1, a2) = tr_UQ_R Rops q /\ 0 < th < PI /\ a0*a0 + a1*a1 + a2*a2 = 1.
+Proof.
+  intros q Hq Hst. destruct (C05_quaternion_route_sign_independent q) as (E1 & _ & E3 & E4).
+  assert (HS : SO3 (tr_UQ_R Rops q)) by (rewrite E3, E4; apply SO3_q2r; exact Hq).
+  pose proof (C05_angvec_right_inverse (tr_UQ_R Rops q) HS Hst) as A. rewrite E1.
+  destruct (m_tr2angvec_general Rops (tr_UQ_R Rops q)) as [[[th a0] a1] a2]. split; [reflexivity|exact A].
+Qed.
+Print Assumptions C05_quaternion_route_angvec.
+(* non-vacuity with a NEGATIVE scalar part: q = (-c, 0, 0, -s) is Rz by the angle with half-angle (c, s) *)
+Example C05_quaternion_route_nonvacuous :
+  let q := (- (3/5), 0, 0, - (4/5)) in qnormsq Rops q = 1 /\ 0 < st2 (tr_UQ_R Rops q).
+Proof. cbv zeta. split; [autounfold with smlin; sm_simpl; field|]. unfold st2. autounfold with smgen. sm_simpl. lra. Qed.
